@@ -145,7 +145,34 @@ func TwoSpreadsOp(r *core.Rng, s *Schema, tag string) []*Def {
 		fa := fmt.Sprintf("fragment Hz%sA on %s {\n  %s\n}\n", tag, td.Name, a.Name)
 		fb := fmt.Sprintf("fragment Hz%sB on %s {\n  %s\n}\n", tag, td.Name, b.Name)
 		dir := []string{"# @genqlient(flatten: true)\n", "# @genqlient(flatten: true, pointer: true)\n", ""}[r.Intn(3)]
-		op := fmt.Sprintf("%squery Hz%sOp {\n  %s {\n    ...Hz%sA\n    ...Hz%sB\n  }\n}\n", dir, tag, f.Name, tag, tag)
+		// ... and, under the same operation-level options, an interface-typed field selecting
+		// only shared fields (flatten does not apply to it; it must stay abstract)
+		abs := ""
+		for _, af := range s.FieldsOf("Query") {
+			atd := s.Get(af.Type.Base())
+			if atd == nil || atd.Kind != "INTERFACE" || af.Name == f.Name {
+				continue
+			}
+			areq := false
+			for _, a := range af.Args {
+				if a.Type.NonNull && a.Default == "" {
+					areq = true
+				}
+			}
+			if areq {
+				continue
+			}
+			for _, lf := range atd.Fields {
+				if s.IsLeaf(lf.Type.Base()) && len(lf.Args) == 0 {
+					abs = fmt.Sprintf("  hzAbs: %s {\n    %s\n  }\n", af.Name, lf.Name)
+					break
+				}
+			}
+			if abs != "" {
+				break
+			}
+		}
+		op := fmt.Sprintf("%squery Hz%sOp {\n  %s {\n    ...Hz%sA\n    ...Hz%sB\n  }\n%s}\n", dir, tag, f.Name, tag, tag, abs)
 		return []*Def{{Name: "Hz" + tag + "A", Kind: "fragment", Text: fa}, {Name: "Hz" + tag + "B", Kind: "fragment", Text: fb},
 			{Name: "Hz" + tag + "Op", Kind: "query", Text: op}}
 	}
